@@ -39,7 +39,14 @@ class InjectedFault(RuntimeError):
     """Distinctive exception that is neither an OSError nor a ValueError."""
 
 
+class InjectedInterrupt(BaseException):
+    """Stands for KeyboardInterrupt / SystemExit / GeneratorExit: an exception that `except Exception` does not see.
+    A load may end this way at any fault point too ("however the load ends")."""
+
+
 def make_exc(name):
+    if name == "interrupt":
+        return InjectedInterrupt("vz-injected-fault")
     if name == "oserror":
         return OSError("vz-injected-fault")
     if name == "urlerror":
